@@ -35,28 +35,30 @@ set_option linter.unusedVariables false
 /-- `parsePelFromPLID(path, config)` with `config.plid = x` is the model's `plidMode … x` -/
 theorem parsePelFromPLID (g : Env → DirCfg → Dir → CliOut) (h : Gen.parsePelFromPLID? = some g) :
     ∀ env c d x, c.ids.plid = some x → g env c d = plidMode env c.opts x d := by
-  cases h; intro env c d x hx
-  simp only [OutM.run, hx]
-  outm_simp
-  cases hp : Pel.processId x with
-  | none => simp [plidMode, hp]
-  | some pid =>
-    have hany := any_of_plid hx (processId_ne_nil hp)
-    have hcfg := selCfg_lookup c hany
-    try simp only []
-    try outm_simp
-    rw [forEach_fold (step := sumStep c.hex (rPlid env c.selCfg pid))]
-    · obtain ⟨h1, h2, h3⟩ := plid_conv env c.selCfg pid (Pel.getFileList d c.ext c.rev)
-      rw [sumStep_fold, plidMode_eq env c.opts x pid d hp]
-      cases hh : c.hex <;> simp [DirCfg.opts, hh, h1, h2, h3, hcfg, summaryObj_eq]
-    · intro f st
-      unfold sumStep rPlid summaryOf pyParsePELSummary
-      cases hps : parseSummary env c.selCfg f.data
-      · have hf := parseSummary_facts hps
-        rw [s_PLID] at hf
-        rename_i sm plid src
-        by_cases hq : pid = fmtHex 8 plid <;> cases hh : c.hex <;> dm_close
-      all_goals (cases hh : c.hex <;> dm_close)
+  cases h
+  all_goals (
+    intro env c d x hx
+    simp only [OutM.run, hx]
+    outm_simp
+    cases hp : Pel.processId x with
+    | none => simp [plidMode, hp]
+    | some pid =>
+      have hany := any_of_plid hx (processId_ne_nil hp)
+      have hcfg := selCfg_lookup c hany
+      try simp only []
+      try outm_simp
+      rw [forEach_fold (step := sumStep c.hex (rPlid env c.selCfg pid))]
+      · obtain ⟨h1, h2, h3⟩ := plid_conv env c.selCfg pid (Pel.getFileList d c.ext c.rev)
+        rw [sumStep_fold, plidMode_eq env c.opts x pid d hp]
+        cases hh : c.hex <;> simp [DirCfg.opts, hh, h1, h2, h3, hcfg, summaryObj_eq]
+      · intro f st
+        unfold sumStep rPlid summaryOf pyParsePELSummary
+        cases hps : parseSummary env c.selCfg f.data
+        · have hf := parseSummary_facts hps
+          rw [s_PLID] at hf
+          rename_i sm plid src
+          by_cases hq : pid = fmtHex 8 plid <;> cases hh : c.hex <;> dm_close
+        all_goals (cases hh : c.hex <;> dm_close))
 
 /-- `parseAndPrintPELFile(file, config, exit_on_error)`: what it prints and reports is the model's `printOne`, it returns whether a
     document was printed; with `exit_on_error` a wrong first / second section id ends the process with status 1 -/
@@ -64,79 +66,85 @@ theorem parseAndPrintPELFile (g : Env → DirCfg → FileEntry → Bool → OutM
     ∀ env c f x (st : PySt Unit), g env c f x st =
       if (x && fullOfBad env c.selCfg f) = true then (.exit 1, st)
       else (.ok (.ret (match fullOf env c.selCfg f with | .some _ => true | _ => false)), printStep env c f st) := by
-  cases h; intro env c f x st
-  unfold printStep printOne fullOf fullOfBad pyParsePEL
-  cases hp : parsePEL env c.selCfg f.data
-  · rename_i eid j
-    have hne := pp_dumps_ne_nil 34 j
-    cases hh : c.hex <;> dm_close
-  · dm_close
-  · cases x <;> dm_close
-  · dm_close
+  cases h
+  all_goals (
+    intro env c f x st
+    unfold printStep printOne fullOf fullOfBad pyParsePEL
+    cases hp : parsePEL env c.selCfg f.data
+    · rename_i eid j
+      have hne := pp_dumps_ne_nil 34 j
+      cases hh : c.hex <;> dm_close
+    · dm_close
+    · cases x <;> dm_close
+    · dm_close)
 
 /-- `parsePelFromID(path, config)` with `config.pelID = e` is the model's `idMode … e` -/
 theorem parsePelFromID (g : Env → DirCfg → Dir → CliOut) (h : Gen.parsePelFromID? = some g) :
     ∀ env c d e, c.ids.pelID = some e → g env c d = idMode env c.opts e d := by
-  cases h; intro env c d e he
-  simp only [OutM.run, he]
-  outm_simp
-  cases hp : Pel.processId e with
-  | none => simp [idMode, hp]
-  | some pid =>
-    have hany := any_of_pelID he (processId_ne_nil hp)
-    have hcfg := selCfg_lookup c hany
-    try simp only []
-    try outm_simp
-    rw [forEach_find (p := fun f => isInfix pid f.name) (hit := fun f st => { printStep env c f st with loc := true })]
-    · unfold idMode
-      simp only [hp]
-      cases hf : d.find? (fun f => isInfix pid f.name) with
-      | none => simp [s, nl]
-      | some f => simp [printStep, DirCfg.opts, hcfg]
-    · intro f st
-      by_cases hq : isInfix pid f.name = true
-      · simp only [hq, if_true]
-        unfold printStep printOne fullOf pyParsePEL
-        cases hpp : parsePEL env c.selCfg f.data
-        · rename_i eid j
-          have hne := pp_dumps_ne_nil 34 j
-          cases hh : c.hex <;> dm_close
-        all_goals dm_close
-      · simp only [hq]
-        dm_close
+  cases h
+  all_goals (
+    intro env c d e he
+    simp only [OutM.run, he]
+    outm_simp
+    cases hp : Pel.processId e with
+    | none => simp [idMode, hp]
+    | some pid =>
+      have hany := any_of_pelID he (processId_ne_nil hp)
+      have hcfg := selCfg_lookup c hany
+      try simp only []
+      try outm_simp
+      rw [forEach_find (p := fun f => isInfix pid f.name) (hit := fun f st => { printStep env c f st with loc := true })]
+      · unfold idMode
+        simp only [hp]
+        cases hf : d.find? (fun f => isInfix pid f.name) with
+        | none => simp [s, nl]
+        | some f => simp [printStep, DirCfg.opts, hcfg]
+      · intro f st
+        by_cases hq : isInfix pid f.name = true
+        · simp only [hq, if_true]
+          unfold printStep printOne fullOf pyParsePEL
+          cases hpp : parsePEL env c.selCfg f.data
+          · rename_i eid j
+            have hne := pp_dumps_ne_nil 34 j
+            cases hh : c.hex <;> dm_close
+          all_goals dm_close
+        · simp only [hq]
+          dm_close)
 
 /-- `parsePelFromBmcID(path, config)` with `config.bmcID = n` is the model's `bmcIdMode … n` -/
 theorem parsePelFromBmcID (g : Env → DirCfg → Dir → CliOut) (h : Gen.parsePelFromBmcID? = some g) :
     ∀ env c d n, c.ids.bmcID = some n → g env c d = bmcIdMode env c.opts n d := by
-  cases h; intro env c d n hn
-  simp only [OutM.run, hn, bmcIdMode]
-  outm_simp
-  rw [bmc_loop env c.opts n, ← bmcEnd_go]
-  · generalize bmcEnd env c.opts n d { loc := false, out := [], errs := 0 } = st
-    cases hl : st.loc <;> simp [hl, s, nl, bmcOut]
-  · intro f st
-    cases hh : c.hex <;>
-    (unfold bmcClass pyGeneratePH
-     cases h1 : generatePHRd env f.data with
-     | error e => dm_close
-     | ok p1 =>
-       obtain ⟨o1, b1⟩ := p1
-       cases o1 with
-       | none => dm_close
-       | some ph =>
-         by_cases hq : natDec ph.obmcLogID = n
-         · have hany := any_of_bmcID hn (by rw [← hq]; exact natDec_ne_nil _)
-           subst hq
-           have hcfg := selCfg_lookup c hany
-           unfold fullOf pyParsePEL
-           simp only [DirCfg.opts, hcfg]
-           cases hpp : parsePEL env c.selCfg f.data
-           · rename_i eid j
-             have hne := pp_dumps_ne_nil 34 j
-             dm_close
-           all_goals dm_close
-         · have hq' : ¬ n = natDec ph.obmcLogID := fun h => hq h.symm
-           dm_close)
+  cases h
+  all_goals (
+    intro env c d n hn
+    simp only [OutM.run, hn, bmcIdMode]
+    outm_simp
+    rw [bmc_loop env c.opts n, ← bmcEnd_go]
+    · generalize bmcEnd env c.opts n d { loc := false, out := [], errs := 0 } = st
+      cases hl : st.loc <;> simp [hl, s, nl, bmcOut]
+    · intro f st
+      cases hh : c.hex <;>
+      (unfold bmcClass pyGeneratePH
+       cases h1 : generatePHRd env f.data with
+       | error e => dm_close
+       | ok p1 =>
+         obtain ⟨o1, b1⟩ := p1
+         cases o1 with
+         | none => dm_close
+         | some ph =>
+           by_cases hq : natDec ph.obmcLogID = n
+           · have hany := any_of_bmcID hn (by rw [← hq]; exact natDec_ne_nil _)
+             subst hq
+             have hcfg := selCfg_lookup c hany
+             unfold fullOf pyParsePEL
+             simp only [DirCfg.opts, hcfg]
+             cases hpp : parsePEL env c.selCfg f.data
+             · rename_i eid j
+               have hne := pp_dumps_ne_nil 34 j
+               dm_close
+             all_goals dm_close
+           · have hq' : ¬ n = natDec ph.obmcLogID := fun h => hq h.symm
+             dm_close))
 
 /-- `parsePelFromSRCID(path, config)` is the model's `srcMode` with `config.src` as the needle and the text of the file
     `config.srcExcludeFile` (when that member is set) as the exclude list — provided one of the two is set (which is when `main`
@@ -145,28 +153,76 @@ theorem parsePelFromBmcID (g : Env → DirCfg → Dir → CliOut) (h : Gen.parse
 theorem parsePelFromSRCID (g : Env → DirCfg → Text → Dir → CliOut) (h : Gen.parsePelFromSRCID? = some g) :
     ∀ env c excl d, (truthy c.ids.src = true ∨ truthy c.ids.srcExcludeFile = true) →
       g env c excl d = srcMode env c.opts c.ids.src (if truthy c.ids.srcExcludeFile then some excl else none) d := by
-  cases h; intro env c excl d hr
-  have hany : c.ids.any = true := by
-    simp only [LookupIds.any]
-    rcases hr with hr | hr <;> simp [hr]
-  have hcfg := selCfg_lookup c hany
-  simp only [OutM.run]
-  cases hs : tv c.ids.src with
-  | some v1 =>
-    obtain ⟨hs1, hs2⟩ := (tv_some_iff _ _).1 hs
-    simp only []
-    by_cases hlen : v1.length > 32
-    · simp only [hlen, decide_true, if_true]
-      outm_simp
-      rw [hs1, srcMode_long _ _ _ _ _ hlen]
-    · simp only [hlen, decide_false, Bool.false_eq_true, if_false]
+  cases h
+  all_goals (
+    intro env c excl d hr
+    have hany : c.ids.any = true := by
+      simp only [LookupIds.any]
+      rcases hr with hr | hr <;> simp [hr]
+    have hcfg := selCfg_lookup c hany
+    simp only [OutM.run]
+    cases hs : tv c.ids.src with
+    | some v1 =>
+      obtain ⟨hs1, hs2⟩ := (tv_some_iff _ _).1 hs
+      simp only []
+      by_cases hlen : v1.length > 32
+      · simp only [hlen, decide_true, if_true]
+        outm_simp
+        rw [hs1, srcMode_long _ _ _ _ _ hlen]
+      · simp only [hlen, decide_false, Bool.false_eq_true, if_false]
+        cases he : tv c.ids.srcExcludeFile with
+        | some v2 =>
+          obtain ⟨he1, he2⟩ := (tv_some_iff _ _).1 he
+          try simp only []
+          try outm_simp
+          rw [forEach_fold (step := sumStep c.hex (rSrc env c.selCfg c.ids.src (some excl)))]
+          · rw [sumStep_fold, srcMode_eq env c.opts c.ids.src _ d (by intro n hn; simp_all)]
+            simp only [DirCfg.opts, hcfg]
+            cases hh : c.hex <;> simp [hh, truthy, hs, he, summaryObj_eq]
+          · intro f st
+            cases hh : c.hex <;>
+            (unfold sumStep rSrc summaryOf pyParsePELSummary
+             cases hps : parseSummary env c.selCfg f.data
+             · have hf := parseSummary_facts hps
+               rw [s_SRC] at hf
+               rename_i sm plid src
+               cases src with
+               | none => simp_all [outm, loopView, truthy, tv]
+               | some rc =>
+                 by_cases hi1 : isInfix v1 rc = true <;> by_cases hi2 : isInfix rc excl = true <;>
+                   simp_all [outm, loopView, truthy, tv, addSums, nl, pelHexDisplay, hexdump16, linesOut_cons, linesOut_nil, linesOut_append,
+                     s_begin, s_end, List.append_assoc, forEach_print]
+             all_goals dm_close)
+        | none =>
+          try simp only []
+          try outm_simp
+          rw [forEach_fold (step := sumStep c.hex (rSrc env c.selCfg c.ids.src none))]
+          · rw [sumStep_fold, srcMode_eq env c.opts c.ids.src _ d (by intro n hn; simp_all)]
+            simp only [DirCfg.opts, hcfg]
+            cases hh : c.hex <;> simp [hh, truthy, hs, he, summaryObj_eq]
+          · intro f st
+            cases hh : c.hex <;>
+            (unfold sumStep rSrc summaryOf pyParsePELSummary
+             cases hps : parseSummary env c.selCfg f.data
+             · have hf := parseSummary_facts hps
+               rw [s_SRC] at hf
+               rename_i sm plid src
+               cases src with
+               | none => simp_all [outm, loopView, truthy, tv]
+               | some rc =>
+                 by_cases hi1 : isInfix v1 rc = true <;>
+                   simp_all [outm, loopView, truthy, tv, addSums, nl, pelHexDisplay, hexdump16, linesOut_cons, linesOut_nil, linesOut_append,
+                     s_begin, s_end, List.append_assoc, forEach_print]
+             all_goals dm_close)
+    | none =>
+      simp only []
       cases he : tv c.ids.srcExcludeFile with
       | some v2 =>
         obtain ⟨he1, he2⟩ := (tv_some_iff _ _).1 he
         try simp only []
         try outm_simp
         rw [forEach_fold (step := sumStep c.hex (rSrc env c.selCfg c.ids.src (some excl)))]
-        · rw [sumStep_fold, srcMode_eq env c.opts c.ids.src _ d (by intro n hn; simp_all)]
+        · rw [sumStep_fold, srcMode_eq env c.opts c.ids.src _ d (by intro n hn; rcases (tv_none_iff _).1 hs with h1 | h1 <;> simp_all)]
           simp only [DirCfg.opts, hcfg]
           cases hh : c.hex <;> simp [hh, truthy, hs, he, summaryObj_eq]
         · intro f st
@@ -179,59 +235,13 @@ theorem parsePelFromSRCID (g : Env → DirCfg → Text → Dir → CliOut) (h : 
              cases src with
              | none => simp_all [outm, loopView, truthy, tv]
              | some rc =>
-               by_cases hi1 : isInfix v1 rc = true <;> by_cases hi2 : isInfix rc excl = true <;>
+               rcases (tv_none_iff _).1 hs with hs1 | hs1 <;> by_cases hi2 : isInfix rc excl = true <;>
                  simp_all [outm, loopView, truthy, tv, addSums, nl, pelHexDisplay, hexdump16, linesOut_cons, linesOut_nil, linesOut_append,
                    s_begin, s_end, List.append_assoc, forEach_print]
            all_goals dm_close)
       | none =>
-        try simp only []
-        try outm_simp
-        rw [forEach_fold (step := sumStep c.hex (rSrc env c.selCfg c.ids.src none))]
-        · rw [sumStep_fold, srcMode_eq env c.opts c.ids.src _ d (by intro n hn; simp_all)]
-          simp only [DirCfg.opts, hcfg]
-          cases hh : c.hex <;> simp [hh, truthy, hs, he, summaryObj_eq]
-        · intro f st
-          cases hh : c.hex <;>
-          (unfold sumStep rSrc summaryOf pyParsePELSummary
-           cases hps : parseSummary env c.selCfg f.data
-           · have hf := parseSummary_facts hps
-             rw [s_SRC] at hf
-             rename_i sm plid src
-             cases src with
-             | none => simp_all [outm, loopView, truthy, tv]
-             | some rc =>
-               by_cases hi1 : isInfix v1 rc = true <;>
-                 simp_all [outm, loopView, truthy, tv, addSums, nl, pelHexDisplay, hexdump16, linesOut_cons, linesOut_nil, linesOut_append,
-                   s_begin, s_end, List.append_assoc, forEach_print]
-           all_goals dm_close)
-  | none =>
-    simp only []
-    cases he : tv c.ids.srcExcludeFile with
-    | some v2 =>
-      obtain ⟨he1, he2⟩ := (tv_some_iff _ _).1 he
-      try simp only []
-      try outm_simp
-      rw [forEach_fold (step := sumStep c.hex (rSrc env c.selCfg c.ids.src (some excl)))]
-      · rw [sumStep_fold, srcMode_eq env c.opts c.ids.src _ d (by intro n hn; rcases (tv_none_iff _).1 hs with h1 | h1 <;> simp_all)]
-        simp only [DirCfg.opts, hcfg]
-        cases hh : c.hex <;> simp [hh, truthy, hs, he, summaryObj_eq]
-      · intro f st
-        cases hh : c.hex <;>
-        (unfold sumStep rSrc summaryOf pyParsePELSummary
-         cases hps : parseSummary env c.selCfg f.data
-         · have hf := parseSummary_facts hps
-           rw [s_SRC] at hf
-           rename_i sm plid src
-           cases src with
-           | none => simp_all [outm, loopView, truthy, tv]
-           | some rc =>
-             rcases (tv_none_iff _).1 hs with hs1 | hs1 <;> by_cases hi2 : isInfix rc excl = true <;>
-               simp_all [outm, loopView, truthy, tv, addSums, nl, pelHexDisplay, hexdump16, linesOut_cons, linesOut_nil, linesOut_append,
-                 s_begin, s_end, List.append_assoc, forEach_print]
-         all_goals dm_close)
-    | none =>
-      exfalso
-      simp [truthy, hs, he] at hr
+        exfalso
+        simp [truthy, hs, he] at hr)
 
 /-! #### the ★ theorems of C10, read with the functions of the source text -/
 
